@@ -1,8 +1,8 @@
 """C03 - every request gets exactly one matching response; notifies get none."""
 from analysis.flow import must_cross, return_points, term_pt, path_counts, trace_op, INF
-from analysis.guards import facts_at, field_writes
+from analysis.guards import facts_at, field_writes, infeasible, path_facts
 from analysis.mir import callee_matches, op_place
-from analysis.sym import Sym, render, is_call, const_val, walk
+from analysis.sym import Sym, render, is_call, const_val, walk, split_rows
 from rules.common import texts, blocks_assigning_variant, value_rows, render_n, option_fact
 
 EXPLANATION = (
@@ -292,10 +292,20 @@ def id_echo(facts, R):
         a1 = s.op(t["args"][1])
         ok = a0[0] == "field" and a0[2] == "id" and a0[1][0] == "field" and a0[1][2] == "header" and a0[1][1][0] == "arg" and a0[1][1][1] == 1
         okq = a1[0] == "field" and a1[2] == "query_format" and a1[1] == a0[1] if ok else False
+        if not ok and a0[0] == "field" and a0[2] == "id" and a0[1][0] == "arg" and b.local_ty(a0[1][1]).lstrip("&").startswith("header::Header"):
+            # the constructor is handed the request's header itself: every caller must pass <its request>.header
+            okq = a1[0] == "field" and a1[2] == "query_format" and a1[1] == a0[1]
+            k = a0[1][1]
+            callers = facts.calls_to(b.path)
+            ok = bool(callers)
+            for cb, ci, ct in callers:
+                ha = Sym(cb).op(ct["args"][k - 1])
+                okc = ha[0] == "field" and ha[2] == "header" and ha[1][0] == "arg"
+                R.check(okc, "id-echo", cb.path, "passes its request's header to " + b.path.rsplit("::", 1)[-1], "header argument is %s" % render(ha), ct.get("span"), render(ha))
         n += 1
         R.check(ok and okq, "id-echo", b.path, "response_header_builder(request.header.id, request.header.query_format)",
                 "response built with id=%s query_format=%s" % (render(a0), render(a1)), t.get("span"), "id and query_format copied from the request")
-    R.floor("id-echo", n, 5, "response_header_builder call sites")
+    R.floor("id-echo", n, 3, "response_header_builder call sites (value, typed slice and their view twins; twins may share one constructor)")
     hb = facts.body("message::response_header_builder")
     hs = Sym(hb)
     v = hs.local(0)
@@ -375,28 +385,44 @@ def error_table(facts, R):
     for i, j, st in rb.assigns():
         rv = st["rv"]
         if rv.get("agg") == "adt" and rv["adt"].endswith("RouteOutcome") and rv["variant"] == "Reject":
-            v = s.rvalue(rv)
-            d = dict(v[3])
-            code = d["code"][2] if d["code"][0] == "agg" else render(d["code"])
-            fs = facts_at(rb, s, facts, i)
-            rows.append((code, fs, st.get("span"), d))
+            # one row per reaching definition of a result local that several paths assign (Result-returning helper, folded exits)
+            for ch, v in (split_rows(s, i, j, rv) or [({}, s.rvalue(rv))]):
+                d = dict(v[3])
+                code = d["code"][2] if d["code"][0] == "agg" else render(d["code"])
+                fs = facts_at(rb, s, facts, i)
+                for pt in ch.values():
+                    if pt[0] >= 0:
+                        fs = fs + [f for f in facts_at(rb, s, facts, pt[0]) if render(f["expr"]) not in {render(g["expr"]) for g in fs}]
+                if infeasible(fs):
+                    continue
+                d["row_bb"] = i
+                rows.append((code, fs, st.get("span"), d))
     got = []
-    for code, fs, span, d in rows:
-        t = texts(fs)
+
+    def classify(code, t):
         ver_bad = any("header.version Ne REPE_VERSION) is True" in x for x in t)
         ver_ok = any("header.version Ne REPE_VERSION) is False" in x for x in t)
         utf_err = any(x.startswith("str::from_utf8(query) is Err") for x in t)
-        fmt_other = any("query_format" in x and "is JsonPointer" not in x and (" is RawBinary" in x or " in [" in x) for x in t)
+        # not a JSON pointer: a known other format, or a code QueryFormat::try_from does not know
+        fmt_other = any("query_format" in x and "is JsonPointer" not in x and (" is RawBinary" in x or " in [" in x or (x.startswith("TryFrom") and x.endswith("is Err"))) for x in t)
         lookup_none = any(x.startswith("Router::get(") and x.endswith("is None") for x in t)
-        kind = None
         if code == "VersionMismatch" and ver_bad:
-            kind = "version"
-        elif code == "InvalidQuery" and ver_ok and utf_err:
-            kind = "utf8"
-        elif code == "InvalidQuery" and ver_ok and fmt_other:
-            kind = "format"
-        elif code == "MethodNotFound" and ver_ok and lookup_none:
-            kind = "lookup"
+            return "version"
+        if code == "InvalidQuery" and ver_ok and utf_err:
+            return "utf8"
+        if code == "InvalidQuery" and ver_ok and fmt_other:
+            return "format"
+        if code == "MethodNotFound" and ver_ok and lookup_none:
+            return "lookup"
+        return None
+    for code, fs, span, d in rows:
+        t = texts(fs)
+        kind = classify(code, t)
+        if kind is None and fs and "row_bb" in d:
+            # an arm entered through several edges (`Ok(RawBinary) | Err(_) =>`): the row must classify alike on each
+            kinds_ = {classify(code, texts(alt)) for alt in path_facts(rb, s, facts, d["row_bb"])}
+            if len(kinds_) == 1:
+                kind = kinds_.pop()
         R.check(kind is not None, "error-code-table", rb.path, "row:%s" % code, "route rejects with %s under %s: not a row of the specified table" % (code, t), span, kind)
         got.append(kind)
         nv = d["notify"]
@@ -425,6 +451,8 @@ def error_table(facts, R):
     for i, j, st in rb.assigns():
         rv = st["rv"]
         if rv.get("agg") == "adt" and rv["adt"].endswith("RouteOutcome") and rv["variant"] == "Dispatch":
+            if infeasible(facts_at(rb, s, facts, i)):
+                continue
             fs = texts(facts_at(rb, s, facts, i))
             ok = any("version Ne REPE_VERSION) is False" in x for x in fs) and any(x.startswith("str::from_utf8(query) is Ok") for x in fs) and any(x.startswith("Router::get(") and x.endswith("is Some") for x in fs)
             R.check(ok, "error-code-table", rb.path, "Dispatch only for valid version, UTF-8 pointer, known path", "Dispatch under %s" % fs, st.get("span"))
